@@ -12,7 +12,7 @@ import ast
 from typing import Dict, List, Optional, Sequence, Tuple
 
 from .model import AnalysisError, FunctionInfo
-from .sym import (FALSE, NONE, TRUE, Evaluator, Frame, Term, Unsupported, is_private_helper, satisfiable, show, sym, t_and, t_not)
+from .sym import (FALSE, NONE, TRUE, Evaluator, Frame, Term, Unsupported, is_private_helper, satisfiable, show, subst, subterms, sym, t_and, t_not)
 
 MAX_PATHS = 20000
 
@@ -377,12 +377,16 @@ class PathEnumerator:
         if info is not None and info.kind in ("method", "classmethod") and params:
             given[params[0]] = self_term
             params = params[1:]
+        def arg(name, node):
+            v = self.ev.expr(node, f)
+            # a container created at the call site is one object inside the helper (keep its identity)
+            return ("var", name, getattr(node, "lineno", 0), v) if _fresh_container(v) else v
         for name, a in zip(params, call.args):
-            given[name] = self.ev.expr(a, f)
+            given[name] = arg(name, a)
         if len(call.args) > len(params):
             raise Unsupported(f"call of {d.name}: too many positional arguments")
         for k in call.keywords:
-            given[k.arg] = self.ev.expr(k.value, f)
+            given[k.arg] = arg(k.arg, k.value)
         positional = [a.arg for a in (d.args.posonlyargs + d.args.args)]
         defaults = dict(zip(positional[::-1], d.args.defaults[::-1]))
         for a, dv in zip(d.args.kwonlyargs, d.args.kw_defaults):
@@ -512,18 +516,34 @@ class PathEnumerator:
             return self._unrolled(st, p, fr)
         if isinstance(st, ast.For):
             it = ev.expr(st.iter, f)
+            mapped = None
+            if it[0] == "comp" and it[1] == "gen" and len(it[3]) == 1:
+                # ``for y in (f(x) for x in D if c)``: range over D, y = f(x), body only where c
+                dom, conds = it[3][0]
+                cbs = subterms((it[2],) + tuple(conds), lambda x: x[0] == "bound" and isinstance(x[1], int) and x[3] == show(dom))
+                if len(cbs) <= 1:
+                    mapped = (it[2], tuple(conds), cbs[0] if cbs else None)
+                    it = dom
             bound = ("bound", "for", st.lineno, show(it))
             bf = Frame(fr.fn, fr.module, body_env, fr.self_cls, fr.depth)
-            ev.bind_target(st.target, bound, bf)
             ec = ev.elem_type(it)
-            if ec is not None and isinstance(st.target, ast.Name):
+            if ec is not None:
                 ev.set_type(bound, ec)
             cond0 = TRUE
+            if mapped is None:
+                ev.bind_target(st.target, bound, bf)
+            else:
+                mp = {mapped[2]: bound} if mapped[2] is not None else {}
+                ev.bind_target(st.target, subst(mapped[0], mp), bf)
+                skip_cond = t_not(t_and(*[subst(c, mp) for c in mapped[1]])) if mapped[1] else FALSE
+                cond0 = t_and(*[subst(c, mp) for c in mapped[1]]) if mapped[1] else TRUE
         else:
             bf = Frame(fr.fn, fr.module, body_env, fr.self_cls, fr.depth)
             cond0 = ev.expr(st.test, bf)
-        start = Path(cond0 if isinstance(st, ast.While) else TRUE, [], body_env)
+        start = Path(cond0, [], body_env)
         body_paths = self.block(st.body, [start], Frame(fr.fn, fr.module, body_env, fr.self_cls, fr.depth))
+        if isinstance(st, ast.For) and mapped is not None and mapped[1] and self.feasible(skip_cond):
+            body_paths.append(Path(skip_cond, [], dict(body_env)))      # elements the generator filters out: body not run
         p.events.append(Event("loop", st, it, extra=dict(paths=body_paths, init_env=dict(p.env), assigned=assigned,
                                                           test=cond0 if isinstance(st, ast.While) else None)))
         # after the loop: loop-carried variables are unknown
